@@ -45,11 +45,15 @@ func sidUUID(k int) string { return fmt.Sprintf("00000000-0000-4000-8000-%012d",
 // all of them; "other" rows differ in the object.
 type pagerShape struct {
 	ns, obj, rel, subSet bool
+	// dup: all four fields of the query are given and every matching row is a copy of the SAME relationship
+	// (rows are told apart by their storage position only; observed row ids are reported as 0)
+	dup bool
 }
 
 var pagerShapes = []pagerShape{
-	{true, true, true, false}, {true, true, false, false}, {true, false, true, false}, {false, true, true, false},
-	{true, false, false, false}, {false, false, true, false}, {false, true, false, false}, {true, true, true, true},
+	{ns: true, obj: true, rel: true}, {ns: true, obj: true}, {ns: true, rel: true}, {obj: true, rel: true},
+	{ns: true}, {rel: true}, {obj: true}, {ns: true, obj: true, rel: true, subSet: true},
+	{ns: true, obj: true, rel: true, dup: true},
 }
 
 type pagerEnv struct {
@@ -63,6 +67,10 @@ func (p *pagerEnv) row(k int, kind string) *ketoapi.RelationTuple {
 		obj = "other-object"
 	}
 	rt := &ketoapi.RelationTuple{Namespace: "n1", Object: obj, Relation: "pr"}
+	if p.shape.dup {
+		rt.SubjectID = ptr("the-same-subject")
+		return rt
+	}
 	if p.shape.subSet {
 		// all matching rows share the subject set; the row id is in the object then
 		rt.SubjectSet = &ketoapi.SubjectSet{Namespace: "n2", Object: "pso", Relation: "psr"}
@@ -78,6 +86,9 @@ func (p *pagerEnv) row(k int, kind string) *ketoapi.RelationTuple {
 
 func (p *pagerEnv) sidOf(rt *ketoapi.RelationTuple) int {
 	var k int
+	if p.shape.dup {
+		return 0
+	}
 	if p.shape.subSet {
 		fmt.Sscanf(strings.TrimPrefix(strings.TrimPrefix(rt.Object, "other-object-"), "po-"), "%d", &k)
 	} else if rt.SubjectID != nil {
@@ -113,6 +124,11 @@ func (p *pagerEnv) query() (url.Values, *rts.RelationQuery, *ketoapi.RelationQue
 	if p.shape.rel {
 		v.Set("relation", "pr")
 		pq.Relation, aq.Relation = ptr("pr"), ptr("pr")
+	}
+	if p.shape.dup {
+		v.Set("subject_id", "the-same-subject")
+		pq.Subject = rts.NewSubjectID("the-same-subject")
+		aq.SubjectID = ptr("the-same-subject")
 	}
 	return v, pq, aq
 }
@@ -294,7 +310,10 @@ func famPager(t *testing.T) {
 				it, _ := p.reg.ReadOnlyMapper().FromTuple(ctx, rt)
 				c := p.reg.Persister().Connection(ctx)
 				var err error
-				if p.shape.subSet {
+				if p.shape.dup {
+					// copies of one relationship: told apart by insertion order only
+					err = c.RawQuery("UPDATE keto_relation_tuples SET shard_id = ? WHERE rowid = (SELECT rowid FROM keto_relation_tuples ORDER BY rowid LIMIT 1 OFFSET ?)", sidUUID(k), k-1).Exec()
+				} else if p.shape.subSet {
 					err = c.RawQuery("UPDATE keto_relation_tuples SET shard_id = ? WHERE object = ?", sidUUID(k), it[0].Object).Exec()
 				} else {
 					err = c.RawQuery("UPDATE keto_relation_tuples SET shard_id = ? WHERE subject_id = ?", sidUUID(k), it[0].Subject.(*relationtuple.SubjectID).ID).Exec()
@@ -335,7 +354,7 @@ func famPager(t *testing.T) {
 							break
 						}
 					}
-					out.write(map[string]any{"z": zi, "via": via, "send": send, "lens": lens, "last": last, "status": statusS})
+					out.write(map[string]any{"z": zi, "via": via, "send": send, "lens": lens, "last": last, "status": statusS, "dup": p.shape.dup})
 				}
 			}
 			// malformed tokens must be client errors
